@@ -15,6 +15,8 @@ on the wire outranks every wildcarded one), and may go to the controller only wh
   part A  all 2^10 wildcard-bit words x nw_src/nw_dst counters x field vectors around each corpus frame
   part P  prefix lattice: every pair of nw_src/nw_dst wildcard counters in {0,1,8,24,31,32,63} x address bit flips
   part B  all tables of <= N entries over an alphabet of overlapping matches x priorities, all insertion orders
+  part H  lookup histories: all ordered pairs (thorough: triples) of frames, incl. near-collision variants of the corpus
+          frames, looked up back to back in one table with no table change in between; differential against a fresh switch
 """
 import itertools, os, traceback
 from mc.engine import pmap
@@ -270,10 +272,10 @@ def widen (mbytes, fields_to_wildcard):
 
 
 class Checker (object):
-  def __init__ (self, rep):
+  def __init__ (self, rep, frames=None):
     self.rep = rep
     self.sw = Sw()
-    self.frames = R.corpus()
+    self.frames = frames or R.corpus()
     self.ext = dict((fr.name, R.extract(fr.data, fr.in_port)) for fr in self.frames)
     self.blame_memo = {}
     self.diag_memo = {}
@@ -443,12 +445,12 @@ PRIORITIES = (1, 2, 0xffff)
 
 
 class LookupChecker (object):
-  def __init__ (self, rep):
+  def __init__ (self, rep, alphabet=None, frames=None):
     self.rep = rep
     self.sw = Sw()
-    self.frames = R.corpus()
+    self.frames = frames or R.corpus()
     self.ext = dict((fr.name, R.extract(fr.data, fr.in_port)[0]) for fr in self.frames)
-    self.alpha = dict(lookup_alphabet())
+    self.alpha = dict(alphabet or lookup_alphabet())
     self.ref = {}
     for mid, mb in self.alpha.items():
       pm = W.parse_match(mb)
@@ -465,15 +467,17 @@ class LookupChecker (object):
     Then the defect is one of matching, reported under the match clauses, and says nothing about lookup order."""
     k = (mid, fr.name)
     if k not in self.single_memo:
-      if self.single is None: self.single = Checker(self.rep)
+      if self.single is None: self.single = Checker(self.rep, self.frames)
       before = sum(v["count"] for v in self.rep.violations.values())
       self.single.check_match(self.alpha[mid], [fr])
       self.single_memo[k] = sum(v["count"] for v in self.rep.violations.values()) != before
     return self.single_memo[k]
 
-  def check_table (self, seq, frames=None):
-    """seq: tuple of (match id, priority); entry i outputs to port OUT+i."""
+  def check_table (self, seq, frames=None, keep=False):
+    """seq: tuple of (match id, priority); entry i outputs to port OUT+i.  Returns {frame name: observation}
+    (None when the table could not be installed); keep=True leaves the table installed."""
     rep, sw = self.rep, self.sw
+    seen = {}
     table = []                 # reference table: (mid, prio, port)
     rep.state_count += 1
     for i, (mid, prio) in enumerate(seq):
@@ -482,7 +486,7 @@ class LookupChecker (object):
       if r is not None:
         rep.violation("%s:install:%s" % (PID, r[1] if r[0] == "raise" else "refused"), "ADD %s priority %d: %r" % (mid, prio, r),
                       dict(kind="lookup", entries=[list(e) for e in seq], frame=self.frames[0].name))
-        sw.reset(); return
+        sw.reset(); return None
       table = [e for e in table if (e[0], e[1]) != (mid, prio)] + [(mid, prio, OUT + i)]
     byport = dict((e[2], e) for e in table)
     for fr in (frames or self.frames):
@@ -493,6 +497,7 @@ class LookupChecker (object):
       got = sw.probe(fr.data, fr.in_port)
       rep.evaluations += 1; rep.transitions += 1
       gote = byport.get(got[1][0]) if got[0] == "out" and len(got[1]) == 1 else None
+      seen[fr.name] = got
       rep.outcome((fr.name, tuple(sorted((e[0], e[1]) for e in cands)), (gote[0], gote[1]) if gote else got))
       self.n += 1
       if self.n % 40000 == 1:
@@ -522,7 +527,8 @@ class LookupChecker (object):
         what = "%s: forwarded by %s@%d, highest-priority matching entries are %s" % (desc, gote[0], gote[1],
                                                                                     ["%s@%d" % (e[0], e[1]) for e in cands])
       rep.violation("%s:%s" % (PID, clause), what, dict(kind="lookup", entries=[list(e) for e in seq], frame=fr.name))
-    sw.clear()
+    if not keep: sw.clear()
+    return seen
 
 
 def entry_kinds ():
@@ -542,8 +548,133 @@ def _work_b (item):
   return ck.rep
 
 
+# ---------------------------------------------------------------------------------------------
+# lookup histories (part H): frames looked up back to back in one table, no table change in between
+# ---------------------------------------------------------------------------------------------
+def history_alphabet ():
+  return lookup_alphabet() + [
+    ("tp_dst=80", W.match_fields(dl_type=0x0800, nw_proto=6, tp_dst=80)),
+    ("dl_vlan=5", W.match_fields(dl_vlan=5)),
+  ]
+
+
+def history_frames ():
+  return R.corpus() + R.near_collisions()
+
+
+def history_tables (thorough):
+  """Tables of distinct matches with strictly descending priorities (so the reference allows exactly one entry
+  per frame unless an exact-match entry is involved): all of 1 and 2 entries, thorough also of 3."""
+  ids = [m for m, _ in history_alphabet()]
+  ts = [((a, 3),) for a in ids]
+  ts += [((a, 3), (b, 2)) for a in ids for b in ids if a != b]
+  if thorough: ts += [((a, 3), (b, 2), (c, 1)) for a in ids for b in ids for c in ids if len(set((a, b, c))) == 3]
+  return ts
+
+
+def pair_walk (n):
+  """Index sequence in which every ordered pair (i, j), i == j included, occurs adjacent, and every i, j, i."""
+  seq = []
+  for i in range(n):
+    seq += [i, i]
+    for j in range(i + 1, n): seq += [j, i]
+  return seq
+
+
+def de_bruijn (k, n):
+  """Cyclic sequence over range(k) containing every word of length n once (Lyndon word concatenation),
+  unrolled: the first n-1 symbols are repeated at the end."""
+  a = [0] * (k * n); out = []
+  def db (t, p):
+    if t > n:
+      if n % p == 0: out.extend(a[1:p+1])
+    else:
+      a[t] = a[t - p]; db(t + 1, p)
+      for j in range(a[t - p] + 1, k):
+        a[t] = j; db(t + 1, t)
+  db(1, 1)
+  return out + out[:n-1]
+
+
+class HistoryChecker (object):
+  KEY = "%s:history:lookup-differs-from-fresh-switch" % PID
+  def __init__ (self, rep):
+    self.rep = rep
+    self.frames = history_frames()
+    self.live = LookupChecker(rep, history_alphabet(), self.frames)       # the switch that accumulates history
+    self.fresh = LookupChecker(rep, history_alphabet(), self.frames)      # rebuilt before every single lookup
+    self.n = 0
+
+  def baseline (self, seq, fr):
+    self.fresh.sw.reset()
+    r = self.fresh.check_table(seq, [fr])            # also compares with the reference (clauses of part B)
+    return None if r is None else r[fr.name]
+
+  def run_history (self, seq, idx, want=None):
+    """Install the table once, look the frames up in order.  Returns the position of the first lookup whose
+    observation differs from the same lookup on a fresh switch (None if all agree) and the observations."""
+    fs = self.frames
+    if want is None: want = {}
+    for i in set(idx):
+      if fs[i].name not in want: want[fs[i].name] = self.baseline(seq, fs[i])
+    sw = self.live.sw
+    sw.clear()
+    for k, (mid, prio) in enumerate(seq):
+      if sw.install(self.live.alpha[mid], prio, OUT + k) is not None: sw.reset(); return None, []
+    self.rep.transitions += len(seq)
+    obs = []
+    for pos, i in enumerate(idx):
+      got = sw.probe(fs[i].data, fs[i].in_port)
+      obs.append(got)
+      self.rep.evaluations += 1; self.rep.transitions += 1
+      self.rep.outcome(("H", fs[idx[pos-1]].name if pos else None, fs[i].name, got, got == want[fs[i].name]))
+      if got != want[fs[i].name]:
+        sw.clear()
+        return pos, obs
+    sw.clear()
+    return None, obs
+
+  def check (self, seq, idx):
+    rep, fs = self.rep, self.frames
+    rep.state_count += 1
+    want = {}
+    pos, obs = self.run_history(seq, idx, want)
+    self.n += 1
+    if self.n % 60 == 1:
+      rep.sample(dict(table=[list(e) for e in seq], history_length=len(idx), first_lookups=[fs[i].name for i in idx[:6]],
+                      observed=[list(o) for o in obs[:6]], verdict="every lookup as on a fresh switch" if pos is None else "differs at %d" % pos))
+    if pos is None: return
+    # shortest suffix of the history that still shows it (2 frames if the previous lookup alone is to blame)
+    hist = idx[:pos+1]
+    if self.KEY not in rep.violations:
+      for ln in (2, 3, 4, 8, 16, 64):
+        if ln >= len(hist): break
+        p2, _ = self.run_history(seq, hist[-ln:], want)
+        if p2 == ln - 1: hist = hist[-ln:]; break
+    cur = fs[idx[pos]]
+    rep.violation(self.KEY,
+                  "table %s: frame %s on port %d looked up after %s is treated as %r; the same frame on a fresh switch with the same "
+                  "table: %r (no flow-mod in between)" % (["%s@%d" % e for e in seq], cur.name, cur.in_port,
+                                                          [fs[i].name for i in hist[:-1]][-4:], obs[pos], want[cur.name]),
+                  dict(kind="history", entries=[list(e) for e in seq], frames=[fs[i].name for i in hist]))
+
+
+def _work_h (item):
+  from mc.env import boot
+  boot()
+  _, tables, triples = item
+  hc = HistoryChecker(Report(PID, "model_checking"))
+  n = len(hc.frames)
+  walk = pair_walk(n)
+  for seq in tables:
+    hc.check(seq, walk)
+    if triples and len(seq) <= 2: hc.check(seq, de_bruijn(n, 3))
+  hc.rep.extra["switch_rebuilds"] = hc.live.sw.resets
+  return hc.rep
+
+
 def _work (item):
-  return {"A": _work_a, "P": _work_p, "B": _work_b}[item[0]](item)
+  return {"A": _work_a, "P": _work_p, "B": _work_b, "H": _work_h}[item[0]](item)
 
 
 # ---------------------------------------------------------------------------------------------
@@ -567,6 +698,10 @@ def run (cfg):
     for k in range(1, pre):
       items += [("B", p, k) for p in itertools.product(kinds, repeat=k)]      # the tables shorter than the split prefix
     items += [("B", p, depth) for p in itertools.product(kinds, repeat=pre)]
+  if cfg.only in (None, "H"):
+    ht = history_tables(thorough)
+    step = cfg.pick(4, 3)
+    items += [("H", ht[i:i+step], thorough) for i in range(0, len(ht), step)]
   ncp = cfg.pick(2, 4)
   if thorough:
     a_rule = ("counters {0,32}^2 x {V0: the frame's own values, fields the frame lacks carrying non-zero garbage; V0 with wildcarded fields "
@@ -588,13 +723,20 @@ def run (cfg):
     "nw_src/nw_dst %s.  P: for each IP/ARP frame: %s x all %d pairs of counters in %s x {frame's addresses, each address with bit %s "
     "flipped%s}, each as sent (bits below the prefix non-zero) and with the bits below the prefix zeroed; the undeviated zeroed vector "
     "also probed with every other frame.  B: all insertion sequences of <=%d entries over %d matches (%s) x priorities %s, entry i "
-    "outputs to port %d+i, every table probed with all %d frames.  distinct = (frame, participating field set, observation) for A/P, "
-    "(frame, allowed entries, entry that forwarded) for B"
+    "outputs to port %d+i, every table probed with all %d frames.  H (lookup histories): every table of <=%d distinct matches with descending "
+    "priorities over the B matches plus tp_dst=80 and dl_vlan=5 (%d tables); %d frames = corpus + near-collision variants (%s); one "
+    "history per table in which every ordered pair of frames (a frame with itself included) is looked up back to back and every A,B,A "
+    "occurs%s, no flow-mod between lookups; every lookup must give what the same frame gives on a freshly built switch with the same table "
+    "(which is itself compared with the reference as in B).  distinct = (frame, participating field set, observation) for A/P, "
+    "(frame, allowed entries, entry that forwarded) for B, (previous frame, frame, observation) for H"
     % (len(frames), ", ".join(f.name for f in frames), a_rule, p_rule, len(COUNTERS) ** 2, list(COUNTERS),
        "/".join(map(str, FLIPS_ALL)), p_vec, depth, len(lookup_alphabet()),
-       ", ".join(m for m, _ in lookup_alphabet()), list(PRIORITIES), OUT, len(frames)))
+       ", ".join(m for m, _ in lookup_alphabet()), list(PRIORITIES), OUT, len(frames),
+       cfg.pick(2, 3), len(history_tables(thorough)), len(history_frames()), ", ".join(f.name for f in R.near_collisions()),
+       "; for tables of <=2 entries also a de Bruijn history containing every ordered triple of frames" if thorough else ""))
   rep.bound = dict(wildcard_bit_words=1024, counter_pairs_A=ncp, counter_pairs_P=len(COUNTERS) ** 2, deviations=cfg.pick(1, 2),
-                   frames=len(frames), table_entries=depth, lookup_alphabet=len(kinds))
+                   frames=len(frames), table_entries=depth, lookup_alphabet=len(kinds),
+                   history_tables=len(history_tables(thorough)), history_frames=len(history_frames()), history_adjacent=cfg.pick(2, 3))
   rep.assumptions = [
     "a field participates iff its wildcard bit is clear (counter < 32) and its prerequisite is specified in the match: network fields "
     "need dl_type specified as 0x0800/0x0806 (nw_tos: 0x0800), transport fields need dl_type 0x0800 and nw_proto specified as 1/6/17",
@@ -620,14 +762,31 @@ def replay (cfg, data):
   from mc.env import boot
   boot()
   rep = Report(PID, "model_checking")
-  frames = dict((f.name, f) for f in R.corpus())
+  if data["kind"] == "history":
+    hc = HistoryChecker(rep)
+    names = [f.name for f in hc.frames]
+    seq = tuple((e[0], int(e[1])) for e in data["entries"])
+    idx = [names.index(n) for n in data["frames"]]
+    lines = ["table: " + ", ".join("%s priority %d -> port %d" % (m, p, OUT + i) for i, (m, p) in enumerate(seq)),
+             "frames looked up back to back, no flow-mod in between:"]
+    want = {}
+    pos, obs = hc.run_history(seq, idx, want)
+    for k, i in enumerate(idx):
+      fr = hc.frames[i]
+      lines.append("  %d. %s on port %d -> %r   (fresh switch, same table: %r)"
+                   % (k + 1, fr.name, fr.in_port, obs[k] if k < len(obs) else "not reached", want[fr.name]))
+    if pos is not None: hc.check(seq, idx)
+    for k, v in sorted(rep.violations.items()):
+      lines.append("%s: %s" % (k, v["what"]))
+    return bool(rep.violations), "\n".join(lines)
+  frames = dict((f.name, f) for f in history_frames())
   fr = frames[data["frame"]]
   fields, app = R.extract(fr.data, fr.in_port)
   lines = ["frame %s on port %d: %s" % (fr.name, fr.in_port, fr.data.hex()),
            "  fields per specification: " + ", ".join("%s=%s" % (f, fields[f].hex() if isinstance(fields[f], bytes) else hex(fields[f]))
                                                      for f in FIELDS if f in app)]
   if data["kind"] == "match":
-    ck = Checker(rep)
+    ck = Checker(rep, history_frames())
     mb = bytes.fromhex(data["match"])
     pm = W.parse_match(mb); m = ref_match(pm)
     lines.append("match on the wire: wildcards=%#x %s" % (pm["wildcards"], ", ".join(
@@ -639,7 +798,7 @@ def replay (cfg, data):
     r = ck.sw.install(mb)
     lines.append("  switch: install -> %r, rx -> %r" % (r, ck.sw.probe(fr.data, fr.in_port) if r is None else None))
   else:
-    ck = LookupChecker(rep)
+    ck = LookupChecker(rep, history_alphabet(), history_frames())
     seq = tuple((e[0], int(e[1])) for e in data["entries"])
     for i, (mid, prio) in enumerate(seq):
       lines.append("entry %d: %s priority %d -> port %d  (wire %s; matches this frame: %s; exact on the wire: %s)"
